@@ -42,6 +42,8 @@ func main() {
 			agg.Require("pointer_updates_received", 300)
 			agg.Require("pointer_updates_self", 300)
 			agg.Require("outdated_pointer_starts", 100)
+			agg.Require("self_produced_sent", 50)
+			agg.Require("self_produced_dropped", 50)
 		},
 	})
 }
@@ -242,6 +244,80 @@ func runCase(env *vlib.Env, idx int, rep *vlib.Reporter) {
 				ptrs[i].AfterKeys(lastStart[i], len(lastIDs[i]))
 				rep.Obs("pointer_updates_self", 1)
 				if !checkPointer(i, "self-produced-keys") {
+					return
+				}
+			}
+		case op == 8 && lastIDs[0] != nil && step%2 == 0:
+			// the real self-produced path: shares of 0, 1 or 2 other keypers arrive for the current
+			// trigger (their slot signatures are stored by the handler); a keys message without
+			// extra then goes through the middleware, which may only send it (and move the
+			// pointer) when a threshold of signatures for (slot, pointer, identities) is stored
+			nsig := r.Intn(3)
+			ops += fmt.Sprintf("M%d", nsig)
+			for i, n := range nodes {
+				var wire []gossipnet.Sent
+				others := []int{}
+				for k := 0; k < w.N; k++ {
+					if k != n.Index {
+						others = append(others, k)
+					}
+				}
+				for _, k := range others[:nsig] {
+					sm := w.SharesMsg(gossipnet.Gnosis, k, lastIDs[i])
+					w.SignShares(gossipnet.Gnosis, sm, w.Keypers.Keys[k], slot, uint64(lastStart[i]))
+					d := n.Deliver(ctx, kprtopics.DecryptionKeyShares, gossipnet.MustMarshal(sm))
+					wire = append(wire, d.Out...)
+				}
+				km := w.KeysMsg(gossipnet.Gnosis, lastIDs[i], nil)
+				km.Extra = nil
+				if err := n.Sender.SendMessage(ctx, km); err != nil {
+					rep.Violationf("middleware-send-error", map[string]any{"state": shape, "ops": ops}, "sending a keys message through the middleware failed: %v", err)
+					return
+				}
+				wire = append(wire, n.TakeSent()...)
+				// what the database holds for the current trigger
+				snap := n.DBNode.DB.Snapshot()
+				var cur map[string]any
+				for _, row := range snap.Rows("current_decryption_trigger") {
+					if row["eon"].(int64) == w.CfgIndex {
+						cur = row
+					}
+				}
+				stored := 0
+				for _, row := range snap.Rows("slot_decryption_signatures") {
+					if cur != nil && row["eon"].(int64) == w.CfgIndex && row["slot"] == cur["slot"] && row["tx_pointer"] == cur["tx_pointer"] && bytes.Equal(row["identities_hash"].([]byte), cur["identities_hash"].([]byte)) {
+						stored++
+					}
+				}
+				sent := 0
+				for _, o := range wire {
+					k, ok := o.Msg.(*p2pmsg.DecryptionKeys)
+					if !ok {
+						continue
+					}
+					sent++
+					ex, _ := k.Extra.(*p2pmsg.DecryptionKeys_Gnosis)
+					if ex == nil || ex.Gnosis.Slot != slot || ex.Gnosis.TxPointer != uint64(lastStart[i]) || len(ex.Gnosis.Signatures) < w.T {
+						rep.Violationf("self-keys-message-extra", map[string]any{"state": shape, "ops": ops}, "a self-produced keys message left the middleware without the current slot/pointer and a threshold of signatures")
+						return
+					}
+				}
+				det := map[string]any{"state": shape, "ops": ops, "keyper": i, "signatures_stored": stored, "keys_messages_sent": sent}
+				if stored < w.T && sent > 0 {
+					rep.Violationf("self-keys-message-sent-below-threshold", det, "a keys message was sent although only %d signatures are stored", stored)
+					return
+				}
+				if stored >= w.T && sent == 0 {
+					rep.Violationf("self-keys-message-dropped-at-threshold", det, "%d signatures are stored but the keys message was dropped", stored)
+					return
+				}
+				if sent > 0 {
+					ptrs[i].AfterKeys(lastStart[i], len(lastIDs[i]))
+					rep.Obs("self_produced_sent", 1)
+				} else {
+					rep.Obs("self_produced_dropped", 1) // pointer must be untouched
+				}
+				if !checkPointer(i, "self-produced-keys-via-middleware") {
 					return
 				}
 			}
